@@ -83,9 +83,9 @@ func (t *tokenizer) peek(n int) rune {
 	return r
 }
 
-func isWS(r rune) bool      { return r == '\n' || r == '\t' || r == ' ' }
-func isDigit(r rune) bool   { return '0' <= r && r <= '9' }
-func isHex(r rune) bool     { return isDigit(r) || 'a' <= r && r <= 'f' || 'A' <= r && r <= 'F' }
+func isWS(r rune) bool    { return r == '\n' || r == '\t' || r == ' ' }
+func isDigit(r rune) bool { return '0' <= r && r <= '9' }
+func isHex(r rune) bool   { return isDigit(r) || 'a' <= r && r <= 'f' || 'A' <= r && r <= 'F' }
 func isNameStart(r rune) bool {
 	return 'a' <= r && r <= 'z' || 'A' <= r && r <= 'Z' || r == '_' || r >= 0x80
 }
